@@ -40,6 +40,7 @@ pub struct Tables {
     pub mutex_fields: BTreeSet<String>,
     pub drop_types: BTreeSet<String>,     // types with an extracted `drop`
     pub backparam_fns: BTreeMap<String, String>, // "Type::method" -> param name
+    pub mutref_params: BTreeMap<String, Vec<usize>>, // method name -> positions of parameters retyped to `&mut T` (a `&x` argument becomes `&mut x`)
     pub ghost_structs: BTreeMap<String, Vec<(String, String)>>, // struct -> (field, init)
     pub dropped_fields: BTreeMap<String, Vec<String>>,
     pub unit_fns: BTreeSet<String>,
@@ -1253,7 +1254,16 @@ impl<'a> Elab<'a> {
 
         let recv = self.fold_expr(recv_orig);
         let mut args: Vec<Expr> = vec![];
-        for a in m.args.into_iter() {
+        let mutpos: Vec<usize> = self.t.mutref_params.get(&method).cloned().unwrap_or_default();
+        for (ai, a) in m.args.into_iter().enumerate() {
+            // the callee's parameter was retyped from `&T` to `&mut T` (a `shared` type): pass `&mut x`
+            let a = match a {
+                Expr::Reference(mut r) if mutpos.contains(&ai) && r.mutability.is_none() => {
+                    r.mutability = Some(Default::default());
+                    Expr::Reference(r)
+                }
+                other => other,
+            };
             let a2 = self.fold_expr(a);
             self.value_consumes(&a2);
             args.push(a2);
